@@ -4,9 +4,14 @@
 GEN   specs/dispatch/Dispatch.tla   MC_Dispatch_*.cfg  (refinement of DispatchContract, AtMostOneProc; the
                                     expected counterexample around fixStaleLocks is re-confirmed: MC_Dispatch_kf)
                                     Gen_Dispatch*.cfg  (random walks of the model = scenarios for binding i)
+      specs/dispatch/QueueCache.tla MC_QueueCache*.cfg (container.Queue for one container: answers vs polls;
+                                    NoRegress/Fresh outside the known class; the known class re-confirmed; the
+                                    proposed repair modelled), Gen_QueueCache.cfg (walks for binding iii)
 RUN   (i)  harness/C14_scheduler     real Scheduler stepped against vSim (model walks + seeded random walks)
       (ii) harness/C14_dispatchcloud real dispatcher + worker.Pool + stub cloud, faults, restart, process tables
+      (iii) harness/C14_container   real container.Queue against a gated fake APIClient
 JUDGE specs/dispatch/DispatchTrace.tla (DispatchContract; mode exact for i, sound for ii)
+      specs/dispatch/QueueCacheTrace.tla (QueueCacheContract, for iii)
 """
 import os
 import random
@@ -79,6 +84,48 @@ def scripted_scenarios():
     return [{"id": 900001, "mode": "script", "nc": 2, "nw": 2, "init": ["Queued", "Queued"], "steps": a},
             {"id": 900002, "mode": "script", "nc": 1, "nw": 1, "init": ["Queued"], "steps": b},
             {"id": 900003, "mode": "script", "nc": 1, "nw": 1, "init": ["Queued"], "steps": c}]
+
+
+def part_queue(ctx, rnd):
+    """container.Queue's cache vs the API server: answers to its own calls against polls."""
+    ctx.tlc(SD, "QueueCache", "MC_QueueCache.cfg", timeout=900, label="container.Queue, one container: NoRegress / Fresh outside the known class")
+    r = ctx.tlc(SD, "QueueCache", "MC_QueueCache_kf.cfg", timeout=900, must_pass=False,
+                label="expected counterexample: a late answer overwrites a newer poll result (no exclusion)")
+    ctx.extra["design_level_counterexample_late_answer"] = bool(r.violated)
+    ctx.tlc(SD, "QueueCache", "MC_QueueCache_fixed.cfg", timeout=900, label="the proposed repair (C14-1.diff) modelled: NoRegress / Fresh, no exclusion")
+    walks, _ = ctx.gen(SD, "QueueCache", "Gen_QueueCache.cfg", simulate="num=%d" % (1500 if ctx.thorough else 150), depth=17,
+                       timeout=900, label="random walks of QueueCache.tla")
+    walks = walks[:(6000 if ctx.thorough else 400)]
+    for i, s in enumerate(walks):
+        s["id"] = i + 1
+    Q = lambda a, x="": {"a": a, "x": x}
+    first = [Q("updstart"), Q("updend"), Q("call", "lock"), Q("commit"), Q("usercancel")]
+    # 9101: the answer arrives after a complete poll (known class); 9102: during the poll (dontupdate, allowed);
+    # 9103: unlock answer after the container was locked again by a poll-visible change is impossible (latch) - a late
+    #       cancel answer after the container completed instead
+    walks.append({"id": 9101, "steps": first + [Q("updstart"), Q("updend"), Q("deliver"), Q("updstart"), Q("updend")]})
+    walks.append({"id": 9102, "steps": first + [Q("updstart"), Q("deliver"), Q("updend"), Q("updstart"), Q("updend")]})
+    walks.append({"id": 9103, "steps": [Q("updstart"), Q("updend"), Q("call", "lock"), Q("commit"), Q("deliver"), Q("running"),
+                                        Q("call", "cancel"), Q("updstart"), Q("updend"), Q("commit"), Q("updstart"), Q("updend"),
+                                        Q("deliver"), Q("updstart"), Q("updend")]})
+    pkg = "lib/dispatchcloud/container"
+    ov = ctx.harness_overlay(pkg, "harness/C14_container")
+    events, out = ctx.go_run_driver(pkg, ov, "TestVerifC14Queue$", walks, timeout=900)
+    if "VERIF-NOTE" in out:
+        ctx.drift.append("queue-level driver: " + [l for l in out.splitlines() if "VERIF-NOTE" in l][0])
+    tr = vlib.split_traces(events)
+    sk = sum(t[0].get("skipped", 0) for t in tr)
+    ap = sum(t[0].get("applied", 0) for t in tr)
+    ctx.extra["iii_steps_applied"] = ap
+    ctx.extra["iii_steps_skipped"] = sk
+    if sk > ap:
+        raise vlib.InfraError("more than half of the queue-level steps could not be applied")
+    acc = ctx.judge(SD, "QueueCacheTrace", "Judge_QueueCache.cfg", events, scenario_of={s["id"]: s for s in walks},
+                    timeout=900, max_rejects=200)
+    ctx.extra["iii_traces"] = len(tr)
+    ctx.extra["iii_traces_accepted"] = acc
+    ctx.samples += [{"scenario": walks[-3], "trace": [t for t in tr if t[0]["scn"] == 9101][0]}] if any(t[0]["scn"] == 9101 for t in tr) else []
+    return len(tr), acc
 
 
 def run(ctx):
@@ -174,20 +221,24 @@ def run(ctx):
         ctx.drift.append("the targeted fixStaleLocks scenario did not reproduce KF-C14-1 in this run")
     if tr2:
         ctx.samples += [{"scenario": e2e[-1], "trace": [e for e in tr2[-1] if e["ev"] not in ("entries", "updatomic")][:40]}]
-    ctx.evaluations = len(traces) + len(tr2)
+    # ---------------------------------------------------------------- (iii) queue level
+    nq, accq = part_queue(ctx, rnd)
+    ctx.evaluations = len(traces) + len(tr2) + nq
     ctx.extra["distinct_nontrivial"] = len(nontrivial) + nproc
     ctx.exhaustive = False
     ctx.rule = ("(i) scenarios = random walks (depth 120) of Dispatch.tla with passes atomic over 1-2 containers x 2 instances "
                 "(three fault budgets incl. restart + StaleLockTimeout) plus seeded random walks drawn by the driver over 1-4 "
                 "containers x 1-3 instances (400 steps); non-trivial = at least one process was started; distinct by the "
                 "sequence of start/exit/restart/instance-gone events. (ii) end-to-end runs of 30-500 containers with VM "
-                "faults, cancels, holds, operator hold/drain and one dispatcher restart; every process start is one judged case")
+                "faults, cancels, holds, operator hold/drain and one dispatcher restart; every process start is one judged case. "
+                "(iii) random walks (depth 16) of QueueCache.tla plus three hand-written schedules against the real container.Queue")
     ctx.trusted_base = ["vSim: Go copy of the environment/pool side of Dispatch.tla (scheduler-level binding)",
                         "queue / pool recording wrappers and the SSH exec hook of the end-to-end driver",
                         "test.StubDriver / test.Queue (repository test support) and the added read-only accessors",
-                        "quiescence = goroutine count"]
+                        "quiescence = goroutine count", "fake APIClient of the queue-level binding (filters, offset paging, version in Priority)"]
     ctx.assumptions = ["'currently Locked' is judged relative to the dispatcher's information (see DispatchContract.tla, clause b)",
-                       "container.Queue itself (delayed answers, dontupdate) is checked at model level only (MC_Dispatch_async)",
+                       "container.Queue (delayed answers, dontupdate) is bound for one container at a time with a gated fake APIClient; "
+                       "a poll is taken to see the record as it is when its first list request is released",
                        "an API answer is delivered before the second poll after the call begins (model, async mode)",
                        "end to end, overlaps of two processes of a container are observed at process starts (process tables), "
                        "'shut down but not yet destroyed' instances are not observable"]
